@@ -12,6 +12,20 @@ TABLE = {
  "C10-a": ("C10", "structural.py sanitize_names_general: generated-name set reset per duplicate group", "two duplicate groups whose counted names coincide ('KICK L' x2 and 'KICK -L' x2)"),
  "C12-a": ("C12", "transcoder.py: pass-through chosen before buffer sizes are computed, default 4096-byte block", "single little-endian stream with a frame size that does not divide 4096 (3 or 5 channels) and more than one block of data"),
  "C16-a": ("C16", "actions.py ls_action: routines dict without make_export_names", "an ls on the opened image object before the first export, and a name whose export name differs from the raw name"),
+ "C01-b": ("C01", "akai/sat.py: early break for free entries placed before the 'reserved run ended' branch", "directory stored as a reserved-flag run of >= 2 sectors with > 341 table entries, followed by a free SAT entry"),
+ "C02-b": ("C02", "roland fat.py: a walk reaching a cluster visited by an earlier pass links its prefix onto it (install marks the joined cluster end of chain)", "chain whose head has a higher number than a later non-final cluster"),
+ "C05-b": ("C05", "structural.py + generalized/wav.py: '.wav' set with Path.with_suffix instead of appended", "export name or stereo stem containing a period (legal in the AKAI alphabet)"),
+ "C06-b": ("C06", "structural.py ExportManager: directory prefix cached by the STORED path", "two sibling directories with the same stored name, each holding a sample with the same export name"),
+ "C07-b": ("C07", "roland fat.py: loop detection through the table-wide dirty flags instead of a per-walk set", "fragmented Roland chain containing a cluster numbered below its first cluster: a well-formed table is refused"),
+ "C08-b": ("C08", "util/stream.py seek: position assigned before the substream seek", "a rejected misaligned seek on a reversed view followed by further use of the view"),
+ "C09-b": ("C09", "actions.py attempt_parse_cue_sheet: CDDA test became 'some track is AUDIO' and runs first", "mixed-mode cue sheet: a data track plus audio tracks"),
+ "C10-b": ("C10", "base.py safe_name: empty sanitised name treated as unset (falls back to the raw name)", "a name made only of discarded characters that contains a separator, e.g. cue TITLE '/'"),
+ "C12-b": ("C12", "transcoder.py make_transcoder: stale num_channels when expanding the swap flags", ">= 2 streams with different channel counts and mixed byte order"),
+ "C13-b": ("C13", "roland fat.py: loop recognised only when the walk returns to its start cluster", "FAT chain whose non-first cluster links back to a non-first cluster or to itself (rho shape)"),
+ "C14-b": ("C14", "roland partial_entry.py: unparsable sample slot breaks the slot loop instead of continuing", "partial with >= 2 used slots, damaged sample before another used slot"),
+ "C15-b": ("C15", "akai/volume.py: SectorReadError ends the scan of the volume's entries", "truncated image, cut inside the header of a file listed BEFORE a file that lies wholly before the cut"),
+ "C16-b": ("C16", "akai/sample.py: seek(0) without SEEK_SET (StreamWrapper.seek defaults to SEEK_CUR)", "the same opened AKAI image exported more than once"),
+ "C20-b": ("C20", "akai/sample.py: scan of the loop table stops at the first zero-duration slot", "loop table with a gap: an unused slot followed by an active one"),
  "C04-a": ("C04", "transcoder.py PassthroughTranscoder: ragged tail trimmed to a whole sample instead of a whole frame", "CDDA last track whose window ends 2-3 bytes past a stereo-frame boundary"),
  "C06-a": ("C06", "structural.py combine_stereo_routine: taken names hoisted out of the loop", "two complete L/R pairs with one stem and different separators in one directory"),
  "C09-a": ("C09", "alcohol/mdx.py: MDX payload size floored to a multiple of 2048", "MDX container, image size not a multiple of 2048, live sample data in the last partial sector"),
@@ -33,6 +47,11 @@ HISTORY = {
  "C06-a": "missed by the first version of C06 (quick tier stopped at 3 siblings); caught after adding the 4-sibling pools to the quick tier",
  "C09-a": "missed by the first version of C09 (no live data in the last partial 2048-byte sector); caught after adding images trimmed right behind their last used byte",
  "C11-a": "missed by the first version of C11 (no contiguous side-by-side files, no reads aimed at sector boundaries, tiny behaviours not replayed); caught after adding contiguous shared-handle configurations whose TLC behaviours are replayed into the real classes, and boundary-aimed reads on real images",
+ "C06-b": "missed by the first version of C06 (every generated directory held a differently named sample); caught after directories got a child of the same name",
+ "C09-b": "missed by the first version of C09 (cue sheets had a single data track); caught after adding mixed-mode cue sheets (data + audio tracks) to the container set",
+ "C10-b": "missed by the first version of C10 (no pool name that sanitises to nothing AND contains a separator); caught after adding '/', '*\\*', '?/?' to the pools",
+ "C15-b": "missed by the first version of C15 (quick tier strided the cuts and picked images whose directory order equals allocation order); caught after all structure-interior cuts are kept and inversion-heavy images are selected",
+ "C20-b": "first run ended with exit 2: the binding self-test used the first trace line, which the change made invalid; the self-test now picks an accepted line, and the change is reported as a violation",
  "C08-a": "caught marginally (3 behaviours) at first; a 5-sector scattered chain was added to the exhaustive depth-2 configurations",
 }
 
